@@ -136,6 +136,7 @@ class LineRun:
         self.count = 0
         self.res_a = self.res_b = None
         self.mut = []           # (line index, file:line, paths)
+        self.helper_lines = []  # line indices executed inside a method of a cached-helper class (self is a helper)
         self.timed_out = False
         self._last = None
         self._pkg = pkg_dir()
@@ -152,6 +153,9 @@ class LineRun:
         if event == 'line':
             self.count += 1
             if self.monitor is not None:
+                slf = frame.f_locals.get('self')
+                if slf is not None and type(slf).__name__ in REVIEWED_HELPER_ATTRS:
+                    self.helper_lines.append(self.count)
                 cur = heap_digest(self.monitor)
                 if self._last is not None:
                     m = mutated_in_place(self._last, cur)
